@@ -343,7 +343,26 @@ func (g *htmlGen) phrasing(depth int) []*hNode {
 			}
 			out = append(out, &hNode{name: name, attrs: g.attrsFor(name)})
 		case k < 9 && !g.inInteractive:
-			switch r.Intn(4) {
+			switch r.Intn(6) {
+			case 4:
+				// ruby: base text, annotations, optional parentheses; an rt/rp end tag may only go when rt/rp or nothing follows
+				rb := &hNode{name: "ruby"}
+				for k := 0; k < 1+r.Intn(2); k++ {
+					rb.kids = append(rb.kids, &hNode{text: r.Pick([]string{"base", "kan", " ji ", "x"})})
+					if r.Chance(1, 3) {
+						rb.kids = append(rb.kids, &hNode{name: "rp", kids: []*hNode{{text: "("}}, omitEnd: r.Chance(1, 2)})
+						rb.kids = append(rb.kids, &hNode{name: "rt", kids: []*hNode{{text: r.Pick([]string{"ann", "a b"})}}, omitEnd: r.Chance(1, 2)})
+						rb.kids = append(rb.kids, &hNode{name: "rp", kids: []*hNode{{text: ")"}}, omitEnd: r.Chance(1, 2)})
+					} else {
+						rb.kids = append(rb.kids, &hNode{name: "rt", kids: []*hNode{{text: r.Pick([]string{"ann", "a b", " y"})}}, omitEnd: r.Chance(1, 2)})
+					}
+				}
+				if r.Chance(1, 3) {
+					rb.kids = append(rb.kids, &hNode{text: r.Pick([]string{"tail", " t"})})
+				}
+				out = append(out, rb)
+			case 5:
+				out = append(out, &hNode{name: "noscript", kids: []*hNode{{text: r.Pick([]string{"enable scripts", " x ", "y"})}}})
 			case 3:
 				// media/object elements with fallback content (their end tag is followed by ordinary text)
 				name := r.Pick([]string{"video", "audio", "object", "canvas", "meter", "progress"})
@@ -403,6 +422,13 @@ func (g *htmlGen) selectEl(name string) *hNode {
 			sel.kids = append(sel.kids, og)
 		} else {
 			sel.kids = append(sel.kids, opt())
+		}
+		// pretty-printed select: white space or a comment between the children
+		switch r.Intn(6) {
+		case 0:
+			sel.kids = append(sel.kids, &hNode{text: r.Pick([]string{" ", "\n", "\n  "})})
+		case 1:
+			sel.kids = append(sel.kids, g.comment())
 		}
 	}
 	return sel
@@ -467,10 +493,15 @@ func (g *htmlGen) block(name string, depth int) *hNode {
 		if r.Chance(1, 4) {
 			nd.kids = append(nd.kids, &hNode{name: "caption", kids: g.phrasing(0)})
 		}
-		if r.Chance(1, 4) {
-			cg := &hNode{name: "colgroup", attrs: nil, omitEnd: r.Chance(1, 2)}
-			cg.kids = append(cg.kids, &hNode{name: "col", attrs: g.attrsFor("col")})
-			nd.kids = append(nd.kids, cg)
+		if r.Chance(1, 3) {
+			// one or two adjacent column groups (the second one's start tag cannot be re-inferred when both lose their tags)
+			for k := 0; k < 1+r.Intn(2); k++ {
+				cg := &hNode{name: "colgroup", attrs: nil, omitEnd: r.Chance(1, 2)}
+				for c := 0; c < 1+r.Intn(2); c++ {
+					cg.kids = append(cg.kids, &hNode{name: "col", attrs: g.attrsFor("col")})
+				}
+				nd.kids = append(nd.kids, cg)
+			}
 		}
 		sections := []string{"tbody"}
 		if r.Chance(1, 3) {
@@ -703,6 +734,8 @@ func (g *htmlGen) mayOmitEnd(n, parent, next *hNode) bool {
 			return true
 		}
 		return last && parent != nil && !hgNoPOmitParents[parent.name] && parent.name != "" && !isCustom(parent.name) && parentAllowsPOmit(parent.name)
+	case "rt", "rp":
+		return nextIs("rt", "rp") || last
 	case "option":
 		return nextIs("option", "optgroup") || last
 	case "optgroup":
@@ -801,7 +834,7 @@ func genHTMLDocRaw(r *core.Rand, payloads bool) string {
 	}
 	// <body> start tag: may be omitted unless the first thing in it is a space character, a comment, or meta/link/script/style/template
 	first := body.kids[0]
-	bodyOmittable := !(first.name == "#comment" || first.name == "" && (first.text == "" || isHTMLSpace(first.text[0])) || first.name == "script" || first.name == "style")
+	bodyOmittable := !(first.name == "#comment" || first.name == "" && (first.text == "" || isHTMLSpace(first.text[0])) || first.name == "script" || first.name == "style" || first.name == "noscript" || first.name == "link" || first.name == "meta" || first.name == "template")
 	bodyAttrs := ""
 	if r.Chance(1, 4) {
 		bodyAttrs = " class=\"home page\""
